@@ -254,12 +254,16 @@ def run_check(prop, tier, seed, budget_s, workers=None, max_runs=None, write_evi
     rdir = 'replays' if write_evidence else os.path.join('replays', 'selftest')
     os.makedirs(os.path.join(VERIF, rdir), exist_ok=True)
     classes = {}
+    alternatives = {}     # further instances of a class, tried when the first one does not replay in a fresh process
     for item in sorted(total['violations'], key=lambda it: it['index']):
         for vj in item['violations']:
             k = match_known(known, prop, vj)
             cls = (vj['oracle'], k['id'] if k else None, vj.get('info', {}).get('node_op'))
             if cls not in classes:
                 classes[cls] = (item, vj, k)
+                alternatives[cls] = []
+            elif len(alternatives[cls]) < 3:
+                alternatives[cls].append((item, vj))
     lines = []
     new_violations = 0
     known_hits = {}
@@ -281,6 +285,20 @@ def run_check(prop, tier, seed, budget_s, workers=None, max_runs=None, write_evi
         with open(path, 'w') as f:
             json.dump(sc_min, f, indent=1, sort_keys=True)
         ok, msg = replay_in_fresh_process(path)
+        for item2, vj2 in ([] if ok else alternatives.get(cls, [])):
+            # the violation needed something the process had done before (state leaking from run to run, which
+            # is a finding in itself): prefer an instance that a fresh process reproduces from its file alone
+            sc2, v2, used2 = shrink(prop, item2['scenario'], vj2, known)
+            sc2 = dict(sc2)
+            sc2['property'] = prop
+            sc2['expect'] = {'oracle': v2['oracle'], 'event': v2['event'], 'detail': v2['detail']}
+            path2 = os.path.join(VERIF, rdir, '%s-%d-%d-%s.json' % (prop, seed, item2['index'], v2['oracle'].split('.')[-1]))
+            with open(path2, 'w') as f:
+                json.dump(sc2, f, indent=1, sort_keys=True)
+            ok2, msg2 = replay_in_fresh_process(path2)
+            if ok2:
+                item, v_min, used, path, ok, msg = item2, v2, used2, path2, ok2, msg2
+                break
         shrink_stats.append({'index': item['index'], 'oracle': v_min['oracle'], 'shrink_runs': used,
                              'replay_reproduced': ok})
         new_violations += 1
